@@ -45,7 +45,7 @@ UInt_Run(buf, i, st) ==
       CASE st.state = "clInit"  -> UInt_Run(buf, i + 1, [st EXCEPT !.state = "clFound", !.soffs = i,
                                                                   !.val = NatLimbs(2, c - 48)])
         [] st.state = "clFound" -> LET v == MulAdd10(st.val, c - 48) IN
-                                     IF Less(v, st.val) THEN Ret(st, i, TOOBIG)    \* `pcl.UIVal > v`
+                                     IF MulAdd10Carry(st.val, c - 48) # 0 THEN Ret(st, i, TOOBIG)   \* UIVal > (max-d)/10
                                      ELSE UInt_Run(buf, i + 1, [st EXCEPT !.val = v])
         [] st.state = "clEnd"   -> Ret(st, i, BADCHAR)
         [] OTHER                -> UInt_Run(buf, i + 1, st)
@@ -146,7 +146,7 @@ CSeq_Run(buf, i, st) ==
       CASE st.state = "csInit"       -> CSeq_Run(buf, i + 1, [st EXCEPT !.state = "csFoundDigit", !.soffs = i,
                                                                        !.no = NatLimbs(2, c - 48)])
         [] st.state = "csFoundDigit" -> LET v == MulAdd10(st.no, c - 48) IN
-                                          IF Less(v, st.no) THEN Ret(st, i, TOOBIG)
+                                          IF MulAdd10Carry(st.no, c - 48) # 0 THEN Ret(st, i, TOOBIG)     \* CSeqNo > (max-d)/10
                                           ELSE CSeq_Run(buf, i + 1, [st EXCEPT !.no = v])
         [] st.state = "csEndDigit"   -> CSeq_Run(buf, i + 1, [st EXCEPT !.state = "csFoundMethod", !.soffs = i])
         [] st.state = "csEnd"        -> Ret(st, i, BADCHAR)
